@@ -81,6 +81,43 @@ Check (C15_providers_result :
   let g := snd (grun c (init c seeds) (ghost0 seeds) es) in
   snd (next_action c s now) = AProvDone l ->
   l = merge_providers c (c_kprov c ++ g_provs g)).
+Check (C15_find_topk :
+  forall c seeds es now l,
+  dist_inj c -> ~ In (c_local c) seeds -> c_kind c = KFind ->
+  let s := fst (grun c (init c seeds) (ghost0 seeds) es) in
+  let g := snd (grun c (init c seeds) (ghost0 seeds) es) in
+  snd (next_action c s now) = AFound l ->
+  forall q, In q (g_answered g) -> ~ In q l ->
+    N.of_nat (length l) = c_k c /\ forall w, In w l -> c_dist c w < c_dist c q).
+Check (C15_merge_spec :
+  forall c l,
+  dist_inj c ->
+  let m := merge_providers c l in
+  NoDup (map fst m) /\
+  (forall p, In p (map fst m) <-> In p (map fst l)) /\
+  dsorted c (map fst m) /\
+  (forall p al, In (p, al) m ->
+     al = addr_set (addrs_of p l) /\ asorted al /\ forall x, In x al <-> In x (addrs_of p l))).
+Check (C15_closed_loop :
+  forall c U E seeds fuel,
+  1 <= c_alpha c -> ~ In (c_local c) seeds -> (forall p, In p seeds -> In p U) -> fair U E ->
+  (8 * length U + 2 <= fuel)%nat ->
+  let es := drive fuel c E false (init c seeds) in
+  done (fst (run c (init c seeds) es)) = true /\
+  length (terminals (snd (run c (init c seeds) es))) = 1%nat /\
+  (length es <= 8 * length U + 2)%nat).
+Check (C15_fair_env_exists :
+  forall U, fair U env_fail_all).
+Check (C15_queries_independent :
+  forall ms eng i c s,
+  nth_error eng i = Some (c, s) ->
+  nth_error (fst (mrun eng ms)) i = Some (c, fst (run c s (events_of i (snd (mrun eng ms)))))).
+Check (C15_peer_action :
+  forall c seeds es p,
+  dist_inj c -> ~ In (c_local c) seeds ->
+  let s := fst (grun c (init c seeds) (ghost0 seeds) es) in
+  let g := snd (grun c (init c seeds) (ghost0 seeds) es) in
+  peer_msg s p = true -> In p (g_sent g) /\ In p (map fst (pend s)) /\ done s = false).
 Check (C15_sent_is_sends :
   forall c es s g, g_sent (snd (grun c s g es)) = g_sent g ++ sends (snd (run c s es))).
 Check (C15_default_config :
